@@ -1635,8 +1635,9 @@ impl Prop for C04 {
     }
     fn default_cases(&self, tier: Tier) -> usize {
         match tier {
-            Tier::Quick => 20_000,
-            Tier::Thorough => 300_000,
+            // every sixth generated case is a session
+            Tier::Quick => 24_000,
+            Tier::Thorough => 360_000,
         }
     }
     fn enumerated_case(&self, tier: Tier, index: usize) -> Option<Vec<String>> {
@@ -1667,7 +1668,7 @@ impl Prop for C04 {
         Some(vec![format!("can {} {}", enc_state(&us), enc_state(&peer))])
     }
     fn gen_case(&self, rng: &mut Rng, _tier: Tier, index: usize) -> Vec<String> {
-        if index % 8 == 7 {
+        if index % 6 == 5 {
             return vec![gen_session(rng)];
         }
         let our_id = rng.range(1, 4);
